@@ -39,6 +39,17 @@ def segment_length(seg):
     return SEG_HEAD + seg['n'] + seg['pad'] + 2 * bool(seg['checksum']) + 2 * bool(seg['trailing'])
 
 
+def pad_bytes(rec, seg):
+    """The pad area of a segment.  Plain: filler and the pad count as last byte.  Encrypted: the padding was encrypted with
+    the body, so the bytes - and the last one in particular - are anything (here mostly 0xFF, larger than many bodies)."""
+    n = seg['pad']
+    if not n:
+        return b''
+    if rec.get('encrypted') and (seg['n'] * 7 + n) % 3 != 0:
+        return bytes((0xA5 + 37 * i) & 0xFF for i in range(n - 1)) + b'\xff'
+    return bytes([0x7e] * (n - 1)) + bytes([n])
+
+
 def encode_segment(rec, seg, body, first, last):
     attr = 0
     if rec['eflr']:
@@ -60,8 +71,7 @@ def encode_segment(rec, seg, body, first, last):
     length = segment_length(seg)
     out = bytearray(struct.pack('>HBB', length, attr, rec['type']))
     out += body
-    if seg['pad']:
-        out += bytes([0x7e] * (seg['pad'] - 1)) + bytes([seg['pad']])
+    out += pad_bytes(rec, seg)
     if seg['checksum']:
         out += b'\xc5\x5c'   # opaque: the reader does not verify checksums
     if seg['trailing']:
@@ -242,6 +252,5 @@ def expected_payload(rec, layout):
     for seg in layout:
         out += rec['payload'][ofs:ofs + seg['n']]
         ofs += seg['n']
-        if seg['pad']:
-            out += bytes([0x7e] * (seg['pad'] - 1)) + bytes([seg['pad']])
+        out += pad_bytes(rec, seg)
     return bytes(out)
